@@ -41,6 +41,39 @@ def run(chk: Check, proj: Project) -> None:
     s4(chk, proj, w)
     s5(chk, proj, w)
     s6(chk, proj, w)
+    s7(chk, proj, w)
+    from .C17 import s5_accessors
+
+    s5_accessors(chk, proj, ["CONTEXT_BEHAVIOR"], rule="S8")
+
+
+def s7(chk: Check, proj: Project, w) -> None:
+    chk.rule("S7", "slot data / default aliases are bound by a store into the top layer (innermost binding); variables captured between the component tag and the fill are collected outermost-first so that the innermost binding wins")
+    m, f = proj.func("slots", "_nodelist_to_slot_render_func.render_func")
+    ctx = params(f)[0]
+    outer = proj.func("slots", "_nodelist_to_slot_render_func")[1]
+    for var in [p for p in params(outer) if p.endswith("_var")]:
+        guard = [s for s in f.body if isinstance(s, ast.If) and norm(s.test) == var]
+        ok = bool(guard) and any(isinstance(x, ast.Assign) and isinstance(x.targets[0], ast.Subscript) and norm(x.targets[0].value) == ctx and norm(x.targets[0].slice) == var for x in guard[0].body)
+        chk.ob("S7", f"slots:render_func:{var}-bound-innermost", m.loc(guard[0]) if guard else m.loc(f), ok if guard else None,
+               f"`{ctx}[{var}] = ...` binds the alias in the top layer" if ok else
+               f"the alias `{var}` is not bound with `{ctx}[{var}] = ...` (e.g. setdefault only assigns when the name resolves nowhere): an unrelated outer variable of the same name wins over the slot data")
+    m2, f2 = proj.func("slots", "FillNode._extract_fill")
+    loops = [x for x in body_walk(f2) if isinstance(x, ast.For) and ".dicts[" in norm(x.iter)]
+    if not loops:
+        chk.undecided("S7", "slots:FillNode._extract_fill:capture-order", m2.loc(f2), "capture loop over context.dicts[...] not found")
+    else:
+        it = loops[0].iter
+        ok = isinstance(it, ast.Subscript) and isinstance(it.slice, ast.Slice) and it.slice.lower is not None and it.slice.upper is None and it.slice.step is None
+        chk.ob("S7", "slots:FillNode._extract_fill:capture-order", m2.loc(loops[0]), ok,
+               "captured layers are walked outermost -> innermost with unconditional assignment (innermost wins)" if ok else
+               f"the capture loop walks `{short(it)}`: with unconditional assignment the OUTERMOST binding of a name wins, so a name bound twice between the tag and the fill evaluates differently from its position in the template")
+        # the captured keys exclude internal ones
+        stores = [x for x in ast.walk(loops[0]) if isinstance(x, ast.Assign) and isinstance(x.targets[0], ast.Subscript) and "extra_context" in norm(x.targets[0].value)]
+        okk = bool(stores) and all(any(pol and t.startswith("not ") and ".startswith('_')" in t for t, pol in cond_atoms(x)) or any((not pol) and ".startswith('_')" in t and not t.startswith("not ") for t, pol in cond_atoms(x)) for x in stores)
+        chk.ob("S7", "slots:FillNode._extract_fill:no-internal-keys-captured", m2.loc(stores[0]) if stores else m2.loc(loops[0]), okk if stores else None,
+               "keys starting with `_` (the library's internal keys, e.g. inject keys) are not captured into the fill" if okk else
+               "the capture filter lets internal `_...` keys into the fill's extra context: the inject key of a {% provide %} that only wrapped the {% fill %} tag is captured, its data is released after fill discovery, and inject() inside the fill later raises KeyError for the dangling id")
 
 
 def s1(chk: Check, proj: Project, w) -> None:
